@@ -235,8 +235,10 @@ class Cplex:
         if len(Xf) == 0:
             raise CplexError("infeasible")
         m = vals.min()
-        gap = self.parameters.values.get("mip.pool.absgap", 1e-6)
-        self.pool = [list(x) for x, v in zip(Xf, vals) if v <= m + gap]
+        # CPLEX keeps in the pool the solutions within BOTH gaps of the best one (defaults: no filter)
+        absgap = self.parameters.values.get("mip.pool.absgap", 1e75)
+        relgap = self.parameters.values.get("mip.pool.relgap", 1e75)
+        self.pool = [list(x) for x, v in zip(Xf, vals) if v <= m + absgap and v <= m + relgap * max(abs(m), 1e-10)]
         self.best, self.best_val = self.pool[0], float(m)
 
 
